@@ -67,6 +67,10 @@ def configs(tier, seed):
         out.append(_cfg("symbolic", (3, 4, 2), t, k=2, lens=[1, 2], strategy="in memory", cost=4))
         out.append(_cfg("fullgrid", (3, 4, 2), t, order="reversed", strategy="in memory", cost=3))
     out.append(_cfg("symbolic", (2, 2, 1), (1, 1, 0), k=1, lens=[2], strategy="on disk", cost=1))
+    # one append to a minishard from an arbitrary state: identifiers, offsets over all 64-bit values (the end-to-end
+    # harnesses use small grids, hence small identifiers)
+    for first in (True, False):
+        out.append(dict(harness="append_step", first=first, n=3, cost=1))
     # two scales written through one accessor, stores interleaved (same shard numbers in both scale directories)
     out.append(_cfg("twoscales", (2, 2, 2), (1, 1, 0), ("raw", "gzip"), strategy="in memory", cost=3))
     out.append(_cfg("twoscales", (3, 2, 1), (2, 0, 1), ("gzip", "raw"), strategy="on disk", cost=3))
@@ -126,6 +130,42 @@ def H_symbolic(ctx, cfg):
     env.run_atexit()
     ctx.sample(dict(grid=grid, bits=[cfg["m"], cfg["s"], cfg["p"]], files=sorted(x.rsplit("/", 1)[1] for x in S.shard_files(env.fs))))
     _verify(ctx, env, cfg, [i.e for i in ids], payloads)
+
+
+def H_append_step(ctx, cfg):
+    """MiniShard.append from an arbitrary state: the index gains exactly (identifier - previous identifier, offset of the
+    minishard for its first chunk / 0 afterwards, payload size) as three uint64 values."""
+    from ..values import SBV
+    env = Env()
+    sb, sfa = S.setup(env)
+    spec_ = sfa.ShardSpec(0, 0, "identity", "raw", "raw", 0)
+    ms = sfa.MiniShard(spec_, strategy="in memory")
+    last, cmc, off = z3.BitVec("last", 64), z3.BitVec("cmc", 64), z3.BitVec("off", 64)
+    ctx.assume(z3.ULE(last, cmc))
+    ctx.input("state", [last, cmc, off])
+    ms._last_chunk_id = SBV(last, real_np.uint64)
+    ms._offset = SBV(off, real_np.uint64)
+    ms._appended = real_np.uint64(0 if cfg["first"] else 5)
+    buf = S.payload("b", cfg["n"])
+    ms.append(buf, SBV(cmc, real_np.uint64))
+    h = ms.header
+    ctx.sample(dict(first=cfg["first"], state="symbolic 64-bit identifiers and offset"))
+    ok = len(h) == 3 and real_np.dtype(h.dtype) == real_np.dtype("uint64")
+    ctx.prove(ok, "index-gains-three-uint64", detail=f"{len(h)} {h.dtype}")
+    if not ok:
+        return
+
+    def term(x):
+        if hasattr(x, "e"):
+            return x.e
+        if hasattr(x, "v"):
+            return z3.Int2BV(x.v, 64)
+        return z3.BitVecVal(builtins.int(x), 64)
+    got = [term(x) for x in (h.a if hasattr(h, "a") else h)]
+    ctx.prove(got[0] == cmc - last, "identifier-delta-exact")
+    ctx.prove(got[1] == (off if cfg["first"] else z3.BitVecVal(0, 64)), "offset-entry-exact")
+    ctx.prove(got[2] == cfg["n"], "size-entry-exact")
+    ctx.prove(ms._last_chunk_id.e == cmc if hasattr(ms._last_chunk_id, "e") else False, "last-identifier-updated")
 
 
 def _grid_coords(grid, order):
@@ -259,6 +299,19 @@ def replay(cfg, cex):
     import tempfile
     sfa = load.mod("sharded_file_accessor")
     inp = cex["inputs"]
+    if cfg["harness"] == "append_step":
+        import warnings
+        last, cmc, off = (builtins.int(v) for v in inp["state"])
+        ms = sfa.MiniShard(sfa.ShardSpec(0, 0, "identity", "raw", "raw", 0), strategy="in memory")
+        ms._last_chunk_id = real_np.uint64(last)
+        ms._offset = real_np.uint64(off)
+        ms._appended = real_np.uint64(0 if cfg["first"] else 5)
+        with warnings.catch_warnings():
+            warnings.simplefilter("ignore")
+            ms.append(bytes(cfg["n"]), real_np.uint64(cmc))
+        want = [cmc - last, off if cfg["first"] else 0, cfg["n"]]
+        got = [builtins.int(x) for x in ms.header]
+        return got != want or ms.header.dtype != real_np.uint64, f"index entries {got} ({ms.header.dtype}), expected {want}"
     grid = cfg["grid"]
     if cfg["harness"] == "twoscales":
         import copy
